@@ -130,6 +130,25 @@ def run(job):
             except ValueError:
                 job.case("update/mixed-kinds-rejected", (kind, repr(v)),
                          dict(conv._rate_dict) == before, "", "")
+        # a validity whose type is a subclass of the established kind's type
+        # (a datetime on a daily converter, a bool on a yearly one): either it
+        # is rejected and nothing changes, or it is taken as the period it
+        # spells; the lookups below decide, nothing else is demanded
+        odd = {"day": datetime.datetime(2020, 3, 16, 12, 30),
+               "year": True}.get(kind)
+        if odd is not None:
+            before = dict(conv._rate_dict)
+            try:
+                conv.update(odd, [(cur[1], Decimal("7"), 1)])
+            except ValueError:
+                job.case("update/subclass-validity-rejected", (kind, repr(odd)),
+                         dict(conv._rate_dict) == before, "", "")
+            else:
+                cv = odd.date() if kind == "day" else int(odd)
+                model[(cv, cur[1])] = ExchangeRate(base, 1, cur[1], Decimal("7"))
+            check_lookups(job, conv, model, kind_type, cur, base,
+                          probes[-2:] + [datetime.date(2020, 3, 16)],
+                          (hno, "after-subclass-validity"), today)
         dates = [datetime.date(y, m, d) for y in (2019, 2020, 2021)
                  for m in (1, 6, 12) for d in (1, 15, 28)]
         rng.shuffle(dates)
